@@ -1,0 +1,108 @@
+//go:build verif
+
+package verifapi
+
+import (
+	"bytes"
+	"context"
+	"sort"
+
+	fs_db "github.com/glebziz/fs_db"
+	"github.com/glebziz/fs_db/internal/db/badger"
+	"github.com/glebziz/fs_db/internal/model"
+	"github.com/glebziz/fs_db/internal/model/sequence"
+	"github.com/glebziz/fs_db/internal/model/transactor"
+	fileRepo "github.com/glebziz/fs_db/internal/repository/file"
+)
+
+// Record is the persisted version record.
+type Record struct {
+	Seq       uint64
+	TxId      string
+	ContentId string
+	Key       string
+}
+
+func toFile(r Record) model.File {
+	return model.File{Key: r.Key, TxId: r.TxId, ContentId: r.ContentId, Seq: sequence.Seq(r.Seq)}
+}
+
+func fromFile(f model.File) Record {
+	return Record{Seq: uint64(f.Seq), TxId: f.TxId, ContentId: f.ContentId, Key: f.Key}
+}
+
+func MarshalRecord(r Record) ([]byte, error) { return fileRepo.VerifMarshal(toFile(r)) }
+
+func UnmarshalRecord(data []byte) (Record, error) {
+	f, err := fileRepo.VerifUnmarshal(data)
+	return fromFile(f), err
+}
+
+// MemKV is an in-memory key-value provider standing in for Badger.
+type MemKV struct {
+	Data map[string][]byte
+}
+
+func NewMemKV() *MemKV { return &MemKV{Data: map[string][]byte{}} }
+
+func (m *MemKV) DB(context.Context) badger.QueryManager { return m }
+
+func (m *MemKV) RunTransaction(ctx context.Context, fn transactor.TransactionFn) error {
+	return fn(ctx)
+}
+
+func (m *MemKV) Set(key []byte, val []byte) error {
+	m.Data[string(key)] = bytes.Clone(val)
+	return nil
+}
+
+func (m *MemKV) Get(key []byte) ([]byte, error) {
+	v, ok := m.Data[string(key)]
+	if !ok {
+		return nil, fs_db.ErrNotFound
+	}
+
+	return v, nil
+}
+
+func (m *MemKV) Delete(key []byte) error {
+	delete(m.Data, string(key))
+	return nil
+}
+
+func (m *MemKV) GetAll(prefix []byte) ([]badger.Item, error) {
+	keys := make([]string, 0, len(m.Data))
+	for k := range m.Data {
+		if bytes.HasPrefix([]byte(k), prefix) {
+			keys = append(keys, k)
+		}
+	}
+	sort.Strings(keys)
+
+	items := make([]badger.Item, 0, len(keys))
+	for _, k := range keys {
+		items = append(items, badger.Item{Key: []byte(k), Value: m.Data[k]})
+	}
+
+	return items, nil
+}
+
+// RepoSet stores r through the file repository over kv; returns the Badger key used.
+func RepoSet(kv *MemKV, r Record) error {
+	return fileRepo.New(kv).Set(context.Background(), toFile(r))
+}
+
+// RepoGetAll reads every version record through the file repository.
+func RepoGetAll(kv *MemKV) ([]Record, error) {
+	files, err := fileRepo.New(kv).GetAll(context.Background())
+	if err != nil {
+		return nil, err
+	}
+
+	res := make([]Record, 0, len(files))
+	for _, f := range files {
+		res = append(res, fromFile(f))
+	}
+
+	return res, nil
+}
